@@ -555,4 +555,40 @@ theorem tr_mapcatMatch_const (n K : Nat) (g : Env) (H : Heap) (am pa fa : Nat) (
     cases fl <;> simp
 
 
+/-- an array pattern: the variable check comes first (its error is the answer whatever the message
+    is), and a message value that is not an array does not match -/
+theorem tr_match_array_head (n : Nat) (g : Env) (H : Heap) (m f : GV) (ps : List GV) (ab : Nat)
+    (hf : ∀ xs, f ≠ .slice xs) (hfn : ∀ a, f ≠ .ref a) :
+    callFn (n + ps.length + 120) matchProg g ".match" m [.slice ps, f, .ref ab] H =
+      (match getVarG ps "" [] with
+       | .error e => .ok ([.nil, .err e], H)
+       | .ok _ => .ok ([.nil, .nil], H)) := by
+  have hf1 : ∀ y, callFn (n + ps.length + 116) matchProg g "fudge" .nil [y] H = .ok ([fudgeG y], H) := fun y => by
+    rw [show n + ps.length + 116 = (n + ps.length + 104) + 12 from rfl]; exact tr_fudge _ g y H
+  have hf2 : ∀ y, callFn (n + ps.length + 115) matchProg g "fudge" .nil [y] H = .ok ([fudgeG y], H) := fun y => by
+    rw [show n + ps.length + 115 = (n + ps.length + 103) + 12 from rfl]; exact tr_fudge _ g y H
+  have hfp : fudgeG (.slice ps) = .slice ps := rfl
+  rw [show n + ps.length + 120 = (n + ps.length + 119) + 1 from rfl]
+  simp only [callFn, find_match]
+  simp [-callFn, -typeOf, matchProg_Mmatch]
+  rw [hf1 (.slice ps)]
+  simp [-callFn, -typeOf, hfp]
+  rw [hf2 f]
+  simp [-callFn]
+  rw [show n + ps.length + 107 = (n + 57) + ps.length + 50 by omega, tr_getVariable]
+  cases hgv : getVarG ps "" [] with
+  | error e => simp
+  | ok r =>
+    obtain ⟨v, acc⟩ := r
+    have hff : ∀ xs, fudgeG f ≠ .slice xs := by
+      intro xs h; cases f <;> simp [fudgeG] at h; exact hf xs (by rw [h])
+    have hfr : ∀ a, fudgeG f ≠ .ref a := by
+      intro a h; cases f <;> simp [fudgeG] at h; exact hfn a (by rw [h])
+    generalize fudgeG f = ff at hff hfr
+    cases ff with
+    | slice xs => exact absurd rfl (hff xs)
+    | ref a => exact absurd rfl (hfr a)
+    | _ => simp
+
+
 end Sheens.TrMatch
